@@ -87,11 +87,13 @@ class Runner:
         ev.update(ok=True, exc="", pos="", msg="", atunion=False, p=p)
         return ev, obj
 
-    def ev_unstructure(self, obj, cls, root):
+    def ev_unstructure(self, obj, cls, root, raw=False):
         ev = {"e": "Unstructure"}
+        live = None
         try:
             # the observation is "unstructure followed by json.dumps" (what reaches the wire)
-            w = json.loads(json.dumps(self.pkg.conv.unstructure(obj, cls)))
+            live = self.pkg.conv.unstructure(obj, cls)
+            w = json.loads(json.dumps(live))
         except BaseException as e:                 # noqa: BLE001
             if isinstance(e, (KeyboardInterrupt, SystemExit, MemoryError)):
                 raise
@@ -102,15 +104,16 @@ class Runner:
         if root["kind"] == "alias":
             w = w.get("value") if isinstance(w, dict) else w
         ev.update(ok=True, exc="", pos="", msg="", w=encode(w))
-        return ev, raw
+        return ev, (live if raw else w)
 
-    def ev_construct(self, o, root):
+    def ev_construct(self, o, root, share=False):
         ev = {"e": "Construct", "o": o}
         try:
+            memo = {} if share else None
             if root["kind"] == "alias":
-                obj = self.pkg.holder(root["name"])(value=self.pkg.build(o))
+                obj = self.pkg.holder(root["name"])(value=self.pkg.build(o, memo=memo))
             else:
-                obj = self.pkg.build(o)
+                obj = self.pkg.build(o, memo=memo)
         except LookupError as e:                   # harness could not map a property to a keyword
             ev.update(ok=False, exc="HarnessLookupError", pos="", msg=str(e)[:160])
             return ev, None
@@ -233,6 +236,17 @@ class Runner:
             if ev["ok"]:
                 self.round_trip_tail(evs, obj, cls, root)
             session("ctor", evs)
+            if st["d"] <= 1 and evs[0]["ok"]:
+                # what unstructure() returns shares nothing with the object (or with an earlier result): serialise, wreck the
+                # returned JSON in place, serialise again - the object was built with EQUAL sub-objects being ONE instance
+                ev1, obj1 = self.ev_construct(o, root, share=True)
+                if ev1["ok"]:
+                    ev2, raw = self.ev_unstructure(obj1, cls, root, raw=True)
+                    evs2 = [ev1, ev2]
+                    if ev2["ok"]:
+                        evs2.append({"e": "Scramble", "n": scramble_guided(raw.get("value") if root["kind"] == "alias" and isinstance(raw, dict) else raw, o)})
+                        evs2.append(self.ev_unstructure(obj1, cls, root)[0])
+                    session("reunstructure", evs2)
             fr = st.get("fr") or {}
             # (an always-written property that the new state leaves unset is still on the wire: "unsetting" a literal or
             # null-admitting attribute is not an assignment of a value of its type)
@@ -293,6 +307,15 @@ class Runner:
         elif sk in ("intval", "lit"):
             out.append(self.ev_structure(evs[0]["j"], cls, root)[0])
             out.append(self.ev_construct(evs[1]["o"], root)[0])
+        elif sk == "reunstructure":
+            ev1, obj1 = self.ev_construct(evs[0]["o"], root, share=True)
+            out.append(ev1)
+            if ev1["ok"]:
+                ev2, raw = self.ev_unstructure(obj1, cls, root, raw=True)
+                out.append(ev2)
+                if ev2["ok"]:
+                    out.append({"e": "Scramble", "n": scramble_guided(raw.get("value") if root["kind"] == "alias" and isinstance(raw, dict) else raw, evs[0]["o"])})
+                    out.append(self.ev_unstructure(obj1, cls, root)[0])
         elif sk == "reparse":
             ev1, obj1 = self.ev_structure(evs[0]["j"], cls, root)
             out.append(ev1)
@@ -403,6 +426,36 @@ def scramble(obj, depth=0, seen=None):
     elif attrs.has(type(obj)):
         for a in attrs.fields(type(obj)):
             n += scramble(getattr(obj, a.name, None), depth + 1, seen)
+    return n
+
+
+def scramble_guided(raw, o):
+    """Wreck the JSON unstructure() returned, in place, but only the containers the converter itself must have built:
+    those that correspond to instances, arrays, tuples and maps of the abstract object.  LSPAny payloads are handed
+    through by cattrs as they are (the caller's own objects) - the statements are silent about that."""
+    k = o.get("k")
+    n = 0
+    if k == "inst" and isinstance(raw, dict):
+        for name, sub in pyside.fun(o["p"]).items():
+            if name in raw:
+                n += scramble_guided(raw[name], sub)
+        raw["verif-scrambled"] = "verif-scrambled"
+        n += 1
+    elif k in ("arr", "tup") and isinstance(raw, list):
+        subs = pyside.seq(o["a"])
+        for x, sub in zip(raw, subs):
+            n += scramble_guided(x, sub)
+        if any(s_.get("k") != "any" for s_ in subs):     # LSPArray / LSPObject containers are the caller's own, too
+            raw.append("verif-scrambled")
+            n += 1
+    elif k == "map" and isinstance(raw, dict):
+        subs = pyside.fun(o["f"])
+        for key, sub in subs.items():
+            if key in raw:
+                n += scramble_guided(raw[key], sub)
+        if any(s_.get("k") != "any" for s_ in subs.values()):
+            raw["verif-scrambled"] = "verif-scrambled"
+            n += 1
     return n
 
 
